@@ -24,6 +24,8 @@ from cell_type_mapper.utils.utils import (
 from cell_type_mapper.utils.multiprocessing_utils import (
     winnow_process_list)
 
+import cell_type_mapper.utils.verif_hooks as verif_hooks
+
 import cell_type_mapper.utils.distance_utils as distance_utils
 
 from cell_type_mapper.type_assignment.utils import (
@@ -298,6 +300,10 @@ def _run_type_assignment_on_h5ad_worker(
         output_lock,
         results_output_path=None):
 
+    if verif_hooks.enabled():
+        verif_hooks.emit(
+            'chunk', r0=r0, r1=r1, cell_ids=list(query_cell_names))
+
     assignment = run_type_assignment(
         full_query_gene_data=query_cell_chunk,
         leaf_node_matrix=leaf_node_matrix,
@@ -459,6 +465,14 @@ def run_type_assignment(
                 t = time.time()
 
                 bootstrap_factor = bootstrap_factor_lookup[str(parent_level)]
+
+                if verif_hooks.enabled():
+                    verif_hooks.emit(
+                        'visit',
+                        parent=parent_node,
+                        rows=chosen_idx,
+                        factor=bootstrap_factor,
+                        iterations=bootstrap_iteration)
 
                 (assignment,
                  bootstrapping_probability,
@@ -641,6 +655,15 @@ def _run_type_assignment(
         taxonomy_tree=taxonomy_tree,
         parent_node=parent_node)
     update_timer("assemble", t, timers)
+
+    if verif_hooks.enabled():
+        verif_hooks.emit(
+            'node',
+            parent=parent_node,
+            query_genes=query_data['query_data'].gene_identifiers,
+            reference_genes=query_data['reference_data'].gene_identifiers,
+            reference_leaves=query_data['reference_data'].cell_identifiers,
+            reference_types=query_data['reference_types'])
 
     t = time.time()
     (result,
@@ -831,6 +854,13 @@ def tally_votes(
         t2 = time.time()
         chosen_idx = rng.choice(marker_idx, n_bootstrap, replace=False)
         chosen_idx = np.sort(chosen_idx)
+        if verif_hooks.enabled():
+            verif_hooks.emit(
+                'draw',
+                iteration=i_iteration,
+                subset=chosen_idx,
+                n_markers=n_markers,
+                factor=bootstrap_factor)
         bootstrap_query = query_gene_data[:, chosen_idx]
         bootstrap_reference = reference_gene_data[:, chosen_idx]
         update_timer("looppreproc", t2, timers)
